@@ -2,6 +2,7 @@
   C04 — ROM positions are contiguous, ordered and exclude noload data.
 -/
 import Props.Writer
+import Props.ImageDoc
 namespace Slinky.C04
 open Slinky W
 
@@ -307,5 +308,40 @@ theorem sections_rom (cx : Ctx) (hcls : ∀ vc ∈ cx.d.vramClasses, vc.fixedSym
     subst h
     simp only [List.filterMap_append, beginSections_rom, endSections_rom, addSegments_rom cx hcls _ _ _ _ hb]
     simp
+
+
+/-! ### in the linked image (the linker semantics `Slinkyv.Ld`) -/
+
+open Ld in
+/-- **C04, image clause**: linking a multi-segment script — `SECTIONS {`, `__romPos = 0x0;`,
+then what `add_segment` writes for every segment — leaves, behind the last segment, the ROM
+counter at the documented recurrence started from 0: every emitted segment (in document
+order) loads at the previous ROM end rounded up to its start alignment and ends at that plus
+the size of its allocatable output section, rounded up to its end alignment. The sizes are
+those of the `.<segment>` output sections the link recorded (type not-noload); the noload
+output sections contribute nothing. Holds for every object table and every initial symbol
+table. -/
+theorem image_rom_recurrence (objs : List InSec) (cx : Ctx) (hsy : cx.emitSecSyms = true)
+    (segs : List Segment) (ls : List Line) (em' : List Str)
+    (h : addSegments cx [] segs = .ok (ls, em'))
+    (hall : ∀ s ∈ segs, shouldEmit cx.o s.cond = true → s.allocSections ≠ [])
+    (defsyms : List (Str × Val)) (k : List Line) :
+    ∃ (zs : List (Segment × Nat)) (st' : St),
+      st' = execK objs { syms := defsyms } (beginSections cx ++ ls) k ∧
+      zs.map (·.1) = segs.filter (fun s => shouldEmit cx.o s.cond) ∧
+      lookupLast Ld.romPos st'.syms = some (.num (romFold 0 zs)) ∧
+      ∀ sz ∈ zs, ∃ o ∈ st'.secs, o.name = c!"." ++ sz.1.name ∧ o.size = sz.2 ∧ o.noload = false := by
+  rw [execK_append]
+  have hb : ∃ st1, st1 = execK objs { syms := defsyms } (beginSections cx) (ls ++ k) ∧ Outside st1 ∧
+      lookupLast Ld.romPos st1.syms = some (.num 0) := by
+    refine ⟨_, rfl, ?_, ?_⟩
+    · unfold beginSections
+      cases cx.d.settings.hardcodedGpValue <;> simp [execK, step, setSym] <;> exact ⟨rfl, rfl⟩
+    · unfold beginSections
+      cases cx.d.settings.hardcodedGpValue <;> simp [execK, step, setSym, eval, lookupLast_snoc, lookupLast_snoc2, Ld.romPos]
+  obtain ⟨st1, e1, o1, r1⟩ := hb
+  rw [← e1]
+  obtain ⟨zs, st', e, _, hz, hrom, hsecs, _⟩ := segments_rom_image objs cx hsy segs [] ls em' h hall st1 o1 0 r1 k
+  exact ⟨zs, st', e, hz, hrom, hsecs⟩
 
 end Slinky.C04
